@@ -203,7 +203,7 @@ def main():
         "wall_s": round(wall, 2),
         "violations": 0 if violation is None else 1,
     }
-    if not a.replay and not a.skip_lean:
+    if not a.replay and not a.skip_lean and not os.environ.get("VERIF_NO_EVIDENCE"):
         os.makedirs(os.path.join(C.VERIF, "evidence"), exist_ok=True)
         json.dump(ev, open(os.path.join(C.VERIF, "evidence", prop + ".json"), "w"), indent=1)
 
